@@ -121,6 +121,9 @@ unsafe impl<L: Lockable> RawLock for RetryingLockCollection<L> {
 					if lock.raw_try_write() {
 						locked.set(locked.get() + 1);
 					} else {
+						// the rollback unlocks everything, even if it panics
+						// halfway, so the panic handler has nothing left to unlock
+						locked.set(0);
 						// safety: we already locked all of these
 						attempt_to_recover_writes_from_panic(&locks[0..i]);
 						return false;
@@ -209,6 +212,9 @@ unsafe impl<L: Lockable> RawLock for RetryingLockCollection<L> {
 					if lock.raw_try_read() {
 						locked.set(locked.get() + 1);
 					} else {
+						// the rollback unlocks everything, even if it panics
+						// halfway, so the panic handler has nothing left to unlock
+						locked.set(0);
 						// safety: we already locked all of these
 						attempt_to_recover_reads_from_panic(&locks[0..i]);
 						return false;
